@@ -31,7 +31,7 @@ type Inner struct {
 }
 
 // Fields of the query root. Every field has its own reactive resource, version and failure budget.
-var Fields = []string{"a", "s", "flag", "obj", "items", "tick"}
+var Fields = []string{"a", "s", "flag", "obj", "items", "tick", "f"}
 
 type failSpec struct {
 	N    int    // number of executions that still fail
@@ -47,6 +47,7 @@ type World struct {
 	Obj   *Inner
 	Items []Item
 	Tick  int64
+	F     float64 // integral, or NaN / +-Inf (which encoding/json refuses)
 	ver   map[string]int
 	res   map[string]*reactive.Resource
 	fail  map[string]*failSpec
@@ -339,6 +340,15 @@ func Schema() *graphql.Schema {
 			}
 			return out, nil
 		})
+		q.FieldFunc("f", func(ctx context.Context) (float64, error) {
+			w := worldOf(ctx)
+			if err := w.read(ctx, "f"); err != nil {
+				return 0, err
+			}
+			w.mu.Lock()
+			defer w.mu.Unlock()
+			return w.F, nil
+		})
 		q.FieldFunc("tick", func(ctx context.Context) (int64, error) {
 			w := worldOf(ctx)
 			if err := w.read(ctx, "tick"); err != nil {
@@ -461,6 +471,8 @@ var SubQueries = []string{
 	`{ flag }`,
 	`{ tick }`,
 	`{ tick a }`,
+	`{ f a }`,
+	`{ f s items { id } }`,
 	// rejected by Parse / PrepareQuery
 	`{ nope }`,
 	`{ a `,
@@ -468,7 +480,7 @@ var SubQueries = []string{
 	`{ items }`,
 }
 
-const FirstBadSubQuery = 10
+const FirstBadSubQuery = 12
 
 var MutQueries = []string{
 	`mutation { setA(value: 7) }`,
